@@ -19,7 +19,7 @@ Notation Inv := (Inv sha).
 Notation ckey := (ckey sha).
 Notation new_sleaves := (new_sleaves sha).
 
-Definition leaf_ckey (l : leaf) : bytes := ckey (mkEntry (l_cert l) (l_pre l) (l_ikh l) [] [] []).
+Notation leaf_ckey := (leaf_ckey sha).
 
 Lemma ckey_leaf_of e idx ts : leaf_ckey (leaf_of sha e idx ts) = ckey e.
 Proof. reflexivity. Qed.
